@@ -78,6 +78,8 @@ def h2FrameOfSx : Sx → Option H2.Frame
   | .list [.atom "d", sid, e, p] => do some (.data (← sid.asNat?) (← p.asBytes?) (← e.asBool?))
   | .list [.atom "dz", sid, e, len, fill] => do
     some (.data (← sid.asNat?) (List.replicate (← len.asNat?) (UInt8.ofNat (← fill.asNat?))) (← e.asBool?))
+  | .list [.atom "dz1", sid, e, len, fill] => do
+    some (.data (← sid.asNat?) (List.replicate (← len.asNat?) (UInt8.ofNat (← fill.asNat?))) (← e.asBool?))
   | .list [.atom "o", _, sid] => sid.asNat?.map .other
   | _ => none
 
@@ -97,6 +99,31 @@ def judgeH2 (payload impl : String) : Verdict :=
       { corr := m.toStr == impl, implSpec := !crashed && want.toStr == impl, modelSpec := m.toStr == want.toStr, tags,
         nontrivial := !cf.isEmpty && !sf.isEmpty, cls := s!"streams={min sids.length 4}",
         model := m.toStr, spec := want.toStr }
+    | _, _ => .bad "bad-case"
+  | _ => .bad "bad-case"
+
+/-- the first bytes of the bodies removed: a DATA frame that opens a stream is kept by reference
+    into the framer's read buffer (http2_assembler.go: "should not happen"), so the content of
+    such a body is whatever the next frame left there; lengths, headers, pairing are compared -/
+def stripBodies : Sx → Sx
+  | .list [.list (.atom "items" :: items), left] =>
+    .list [.list (.atom "items" :: items.map fun it => match it with
+      | .list [.list [.atom "req", m, h, l, _], .list [.atom "resp", st, rh, rl, _], v] =>
+        .list [.list [.atom "req", m, h, l], .list [.atom "resp", st, rh, rl], v]
+      | x => x), left]
+  | x => x
+
+/-- frame scripts no HTTP/2 peer would send (DATA before HEADERS, frames after END_STREAM, bodies
+    around the cap without headers): the model must predict the dissector and nothing may panic -/
+def judgeH2Raw (payload impl : String) : Verdict :=
+  match Sx.parse payload with
+  | some (.list [.list (.atom "c" :: cfs), .list (.atom "s" :: sfs)]) =>
+    match cfs.mapM h2FrameOfSx, sfs.mapM h2FrameOfSx with
+    | some cf, some sf =>
+      let m := H2.observe cf sf
+      let crashed := (impl.splitOn "panic").length > 1 || (impl.splitOn "crash").length > 1 || (impl.splitOn "timeout").length > 1
+      { corr := some (stripBodies m).toStr == (Sx.parse impl).map (fun o => (stripBodies o).toStr), implSpec := !crashed, modelSpec := true, tags := [],
+        nontrivial := !cf.isEmpty || !sf.isEmpty, cls := "raw", model := m.toStr, spec := "no-panic" }
     | _, _ => .bad "bad-case"
   | _ => .bad "bad-case"
 
